@@ -433,6 +433,7 @@ def _sequential_impl(
                 attributes=attributes,
                 capture_lazy=capture_lazy,
                 wrapped_fn=wrapped_fn,
+                on_reset=on_reset,
             )
 
         return wrapper
@@ -455,6 +456,11 @@ def _sequential_impl(
         step_cond = lambda: True
 
     if inspect.isfunction(trigger) or is_coro:
+        # a process without clock has no reset branch
+        assert (
+            reset is None and len(on_reset) == 0
+        ), "reset and on_reset require a clock"
+
         wrapped_fn = trigger if wrapped_fn is None else wrapped_fn
 
         if is_coro:
